@@ -84,6 +84,14 @@ def correspond(ctx):
                     pt = rnd.choice(pts)
                     req.append("jweenc\t%s\t-\t%s\t%s" % (J(tmpl), J(key), pt.hex() or "-"))
                     meta.append((wrap, enc, zip_, aad, key, pt))
+    # extra ECDH-ES tokens on P-521 (the 66-octet field: about half of all shared secrets Z start with a zero octet,
+    # which must be KEPT in the Concat KDF input -- RFC 7518 4.6 / SEC 1)
+    if keys.get("P-521"):
+        for i in range(10 if quick else 40):
+            wrap = ("ECDH-ES", "ECDH-ES+A128KW")[i % 2]
+            tmpl = G.jwe_template(wrap, "A128GCM", False, None)
+            req.append("jweenc\t%s\t-\t%s\t%s" % (J(tmpl), J(keys["P-521"]), b"z".hex()))
+            meta.append((wrap, "A128GCM", False, None, keys["P-521"], b"z"))
     outs = G.harness(bdir, req)
     toks = []
     for r, o, m in zip(req, outs, meta):
@@ -237,7 +245,30 @@ def correspond(ctx):
         v = oracle(c, o)
         if v:
             rep.violation(v[0], v[1], {"case": c, "implementation": o})
-    sample = [c for c in pk_cases if json.loads(c.split("\t")[3]).get("kty") == "EC"][:4 if quick else 40]
+    def z_leading_zero(c):
+        """does the shared secret of this ECDH-ES token start with a zero octet?  (independent python arithmetic)"""
+        import pyec
+        try:
+            f = c.split("\t")
+            tok, key = json.loads(f[1]), json.loads(f[3])
+            hdr = {}
+            if "protected" in tok:
+                hdr.update(json.loads(G.unb64(tok["protected"])))
+            hdr.update(tok.get("unprotected") or {})
+            hdr.update(tok.get("header") or (tok.get("recipients") or [{}])[0].get("header") or {})
+            epk = hdr["epk"]
+            cv = pyec.CURVES[key["crv"]]
+            d = int.from_bytes(G.unb64(key["d"]), "big")
+            Q = (int.from_bytes(G.unb64(epk["x"]), "big"), int.from_bytes(G.unb64(epk["y"]), "big"))
+            zx = pyec.mul(cv, d, Q)[0]
+            return zx.to_bytes(cv["size"], "big")[0] == 0
+        except Exception:
+            return None
+    ecs = [c for c in pk_cases if json.loads(c.split("\t")[3]).get("kty") == "EC"]
+    zz = [c for c in ecs if z_leading_zero(c)]
+    nz = [c for c in ecs if c not in zz]
+    dist["ECDH-ES tokens whose shared secret starts with a zero octet"] = len(zz)
+    sample = (zz[:2] + nz[:2]) if quick else (zz[:20] + nz[:20])
     rsa_sample = [c for c in pk_cases if json.loads(c.split("\t")[3]).get("kty") == "RSA" and "d" in json.loads(c.split("\t")[3])][:3 if quick else 30]
     lines, wants = [], []
     for c in sample:
